@@ -95,8 +95,8 @@ def bounds_family(fam, body, props, insts):
 
 # (prefix len, key len)
 bounds_family("bounds_author_prefix", "bounds_author_prefix", ["C02", "C05"],
-              [(0, 1, "quick"), (1, 1, "quick"), (1, 2, "quick"), (2, 1, "quick"), (2, 2, "quick"), (3, 1, "quick"), (2, 3, "thorough"), (3, 2, "thorough")])
-bounds_family("bounds_author_key", "bounds_author_key", ["C05"], [(1, 1, "quick"), (1, 2, "quick"), (2, 2, "thorough")])
+              [(0, 1, "quick"), (1, 1, "quick"), (1, 2, "quick"), (2, 1, "quick"), (2, 2, "quick"), (3, 1, "quick"), (3, 3, "quick"), (2, 3, "thorough"), (3, 2, "thorough")])
+bounds_family("bounds_author_key", "bounds_author_key", ["C05"], [(1, 1, "quick"), (1, 2, "quick"), (0, 1, "quick"), (0, 0, "quick"), (2, 2, "thorough")])
 # (candidate key len, bound key len)
 bounds_family("bounds_namespace", "bounds_namespace", ["C08", "C16", "C05"], [(1, 1, "quick"), (0, 1, "quick"), (1, 0, "quick"), (2, 1, "thorough")])
 bounds_family("bounds_bykey", "bounds_bykey", ["C05", "C16"], [(0, 1, "quick"), (1, 1, "quick"), (1, 2, "quick"), (2, 1, "quick"), (3, 1, "quick"), (2, 2, "thorough")])
@@ -198,6 +198,8 @@ h("open_replicas_step", "actor::open_replicas_step::<S>", ["C14"], "quick", unwi
 
 # C09 framing / C10 sessions (net/codec.rs)
 CODEC_STUBS = DEFAULT_STUBS + ["cteq", "time", "crypto"]
+# n >= 4 (the length prefix is complete, the frame length becomes symbolic): 12 GB and no result after 20 min; the laws for
+# longer buffers are decided by the E3 query c09_frame_decode (integer buffer lengths, every index checked against the length)
 for n, tier in [(3, "quick"), (6, "thorough"), (8, "thorough")]:
     h("codec_decode_total_%d" % n, "net_codec::codec_decode_total::<S, %d>" % n, ["C09"], tier, unwind=12, stubs=CODEC_STUBS,
       family="codec_decode_total", cap=1500, mem_gb=20)
